@@ -42,7 +42,9 @@ MANIFEST = {
             "the ANTLR parser, and unambiguity of the grammar -- these are trusted and exercised by the run-time comparison only.  "
             "Thirteen deviations of the tree as found are variant parameters (detected at run time) with refutation witnesses.  "
             "The model is tied to /repo on every run by a correspondence run against the real ANTLR parser and visitor (tree "
-            "shape, visitor result, str(), the real lexer's tokens of str() against `print`, meaning, re-parse), and by a "
+            "shape, visitor result, str(), the real lexer's tokens of str() against `print`, meaning, re-parse; every case a "
+            "second time in fresh interpreters under other time zones, another hash seed, reverse order and other public "
+            "argument forms, the 2.0 grammar on the same texts), and by a "
             "source-text translator (tr_visitor: child indices per visit method, instantiated classes, variant sites, __str__ "
             "templates, escape / quote_if_needed / make_constant) whose facts Props/C10Src.v equates with the tables the model "
             "transcribes, including that the variant record the source flags denote is `repaired`.",
@@ -560,7 +562,11 @@ def check(run):
         "operator at every precedence and parenthesisation) plus %d random trees (depth <= %d, boundary-biased literals: "
         "escapes, signs, leading zeros, 2^63, exponent-range floats, leap days, sub-second digits), printed to text with "
         "varied whitespace, parsed by the real ANTLR parser (tree compared with the generated tree) and visited by the real "
-        "visitor; %d objects built through the public classes (well grouped by construction, plus a not-well-grouped stream). "
+        "visitor; the same constructs at sizes 0..256 / depths 1..11 (set elements, path steps, chains, nesting, lengths of "
+        "strings, names and numbers), every keyword of either grammar version as a name; %d objects built through the public "
+        "classes (well grouped by construction, plus a not-well-grouped stream); every case again in the alternate run (fresh "
+        "interpreters, TZ JST-9 / EST5EDT / UTC0 / +05:45, PYTHONHASHSEED 4242, reverse order, 2.0 before 2.1 on the same text, "
+        "other public argument forms). "
         "Model and implementation are compared on tree shape, visitor result or exception class, str(), tokens of str(), "
         "meaning of tree and object, and the re-parse.  A case is non-trivial when the visitor produced an object and the "
         "pattern has more than one comparison or a qualifier/parenthesis" % (n_random, depth, n_prog))
